@@ -181,9 +181,13 @@ type op struct {
 	write        bool
 	ns, key, att int
 	d            dv
+	extra        int // extra DataValue fields the write carries: 1 status code (Good), 2 source timestamp
 }
 
 func (o op) String() string {
+	if o.write && o.extra != 0 {
+		return fmt.Sprintf("w:%d:%d:%d:%s:f%d", o.ns, o.key, o.att, o.d, o.extra)
+	}
 	if o.write {
 		return fmt.Sprintf("w:%d:%d:%d:%s", o.ns, o.key, o.att, o.d)
 	}
@@ -248,7 +252,10 @@ func parseHist(line string) (hist, bool) {
 		var o op
 		switch {
 		case len(q) == 4 && q[0] == "r":
-		case len(q) == 5 && q[0] == "w":
+		case (len(q) == 5 || len(q) == 6) && q[0] == "w":
+			if len(q) == 6 {
+				o.extra, _ = strconv.Atoi(strings.TrimPrefix(q[5], "f"))
+			}
 			o.write = true
 			d, ok := parseDV(q[4])
 			if !ok {
@@ -339,6 +346,9 @@ func (e *env) genHist(ual, al dv) hist {
 				o.d = classSlots[1+e.rnd.Intn(len(classSlots)-1)]
 			default:
 				o.d = valueSlots[e.rnd.Intn(len(valueSlots))]
+			}
+			if o.d.kind != 0 && e.rnd.Chance(30) {
+				o.extra = 1 + e.rnd.Intn(3)
 			}
 		} else {
 			o.att = e.rnd.Pick(13, 13, 13, 13, 17, 18, 1, 2, 12, 4, 22)
@@ -433,7 +443,15 @@ func snapshot(n *server.Node) string {
 func (e *env) exec(o op, keyShift int, wire bool) string {
 	id := ua.NewNumericNodeID(uint16(o.ns), uint32(o.key+keyShift))
 	if o.write {
-		req := &ua.WriteRequest{RequestHeader: &ua.RequestHeader{}, NodesToWrite: []*ua.WriteValue{{NodeID: id, AttributeID: ua.AttributeID(o.att), Value: mk(o.d)}}}
+		val := mk(o.d)
+		if val != nil && o.extra&1 != 0 {
+			val.EncodingMask |= ua.DataValueStatusCode // Status stays Good
+		}
+		if val != nil && o.extra&2 != 0 {
+			val.EncodingMask |= ua.DataValueSourceTimestamp
+			val.SourceTimestamp = time.Date(2020, 1, 1, 0, 0, 0, 0, time.UTC)
+		}
+		req := &ua.WriteRequest{RequestHeader: &ua.RequestHeader{}, NodesToWrite: []*ua.WriteValue{{NodeID: id, AttributeID: ua.AttributeID(o.att), Value: val}}}
 		if wire {
 			resp, err := e.c.Write(context.Background(), req)
 			if err != nil || len(resp.Results) != 1 {
